@@ -335,9 +335,9 @@ v("C12", "boot-skips-to-off", "break", BASE,
   '''            if self.operating_state == NodeOperatingState.BOOTING:
                 self.operating_state = NodeOperatingState.OFF''', "R12.1", "BOOTING -> OFF")
 v("C12", "extra-state-writer", "break", BASE,
-  '''        self.node_scan_countdown = self.config.node_scan_duration
+  '''        self.node_scan_countdown = max(self.config.node_scan_duration, 1)
         return True''',
-  '''        self.node_scan_countdown = self.config.node_scan_duration
+  '''        self.node_scan_countdown = max(self.config.node_scan_duration, 1)
         self.operating_state = NodeOperatingState.ON
         return True''', "R12.1", "Node.scan switches the node on")
 v("C12", "enable-ignores-power", "break", BASE,
